@@ -121,6 +121,7 @@ def check(case, mon, ctx):
             mon.violation('recognition-returns-a-result-for-every-line', {'exception': repr(e)[:300], 'widths': ws, 'batch_size': bs, 'mode': mode})
             return
     mon.count('lists')
+    mon.observe('transcriptions and windows', [tr, co])
     if not (len(tr) == len(lg) == len(co) == k):
         mon.violation('one-result-per-input-position', {'n_lines': k, 'n_results': [len(tr), len(lg), len(co)]})
         return
